@@ -90,7 +90,10 @@ def finalize(ctx):
                 ctx.violate("C05", "feasible_work_hit_timeout",
                             f"work-conserving feasible run ended at the timeout {timeout}; unfinished={unfinished[:6]}")
             elif unfinished:
-                ctx.violate("C05", "feasible_work_unfinished", f"ended at {ctx.end_time} with {unfinished[:8]}")
+                open_graphs = {g for g, blks in world["meta"]["blocks"].items() if any(b.get("open") for b in blks)}
+                ctx.violate("C05", "feasible_work_unfinished", f"ended at {ctx.end_time} with {unfinished[:8]}",
+                            unfinished_all_cancelled=all(st == "CANCELLED" for _, st in unfinished),
+                            only_in_graphs_with_open_conditional=all(u.split("@")[1] in open_graphs for u, _ in unfinished))
         if ctx.end_time >= timeout and unfinished:
             ctx.count("ended_at_timeout_with_work")
         if ctx.end_time < timeout and remaining_work:
